@@ -236,6 +236,13 @@ def election_fn(rule, case, cfg):
                 ex._vk_partial = canon_election(SEEN[0]) if SEEN else ()
             except Exception:
                 ex._vk_partial = ()
+            try:
+                ex._vk_partial_all = [
+                    (type(x).__name__, canon_election(x), canon_profile(x._profile))
+                    for x in SEEN
+                ]
+            except Exception:
+                ex._vk_partial_all = []
             raise
 
     return fn
